@@ -52,6 +52,10 @@ func vSeg(n int) string {
 // vVendoredQ2: q2 lives under the module's vendor directory (mode 3).
 var vVendoredQ2 bool
 
+// vDottedPaths: the last element of q1's and q2's import paths contains a dot
+// (gopkg.in style, `.../<s>.v3`); the package name is the part before it (mode 4).
+var vDottedPaths bool
+
 func vNewTyWorld(s1, s2 string) *vTyWorld {
 	w := &vTyWorld{byPath: map[string]*types.Package{}}
 	mk := func(path, name string) *types.Package {
@@ -61,7 +65,13 @@ func vNewTyWorld(s1, s2 string) *vTyWorld {
 	}
 	w.self = mk("example.com/m/self", "self")
 	w.q1 = mk("example.com/a/"+s1, s1)
-	if vVendoredQ2 {
+	if vDottedPaths {
+		delete(w.byPath, w.q1.Path())
+		w.q1 = mk("example.com/a/"+s1+".v3", s1)
+	}
+	if vDottedPaths {
+		w.q2 = mk("gopkg.in/"+s2+".v2", s2)
+	} else if vVendoredQ2 {
 		w.q2 = mk("example.com/m/vendor/example.com/b/"+s2, s2)
 	} else {
 		w.q2 = mk("example.com/b/"+s2, s2)
@@ -521,12 +531,15 @@ func (j *vTyJudge) check(text string, t types.Type) {
 // Verif_C11_TypeLit(depth, seg, tagLen, mode): mode 0 renders into self, 1 into
 // q1 (X and G local, L foreign), 2 into self with a tracker that has already
 // imported a third package wanting the same name as q1, 3 into self with q2
-// living under the module's vendor directory. Rendered through ID and through
+// living under the module's vendor directory, 4 into self with q1 and q2 at
+// import paths whose last element contains a dot (`<s>.v3`). Rendered through ID and through
 // %T; both texts are judged.
 func Verif_C11_TypeLit(depth, seg, tagLen, mode int) {
 	vVendoredQ2 = mode == 3
+	vDottedPaths = mode == 4
 	w := vNewTyWorld(vSeg(seg), vSeg(seg))
 	vVendoredQ2 = false
+	vDottedPaths = false
 	t := w.vBuild(depth, tagLen)
 	j := vNewJudge(w, mode)
 	text := vRenderIn(j.d, ID(t))
